@@ -15,6 +15,8 @@ from sim import refmodel as R
 from sim.oracles import Violation
 
 TOL_TWIN = 4e-6
+# steps that change representation or bookkeeping only
+NEUTRAL = ("sub.expand", "sub.contract", "env.expand", "env.contract", "env.combine", "env.reorder", "ce.combine", "ce.reorder", "ce.expand", "ps.contract", "mk_ce", "mk_env", "mk_custom", "mk_op", "mut_op", "config", "trace_out")
 
 
 def snapshot_diff(sa, sb, client=None, tol=TOL_TWIN):
@@ -166,7 +168,10 @@ def compare_traces(ra, rb, props, oracle, world_a, client=None, compare_draws=Tr
                 return None, None
         if "skipped" in (res_a.status, res_b.status) and res_a.status != res_b.status:
             # applicability of a request may depend on the representation level (expand / contract
-            # steps); the physical comparison below still applies
+            # steps); the physical comparison below still applies to steps that are physically neutral,
+            # any other step that ran in one twin only ends the comparison
+            if r["do"] not in NEUTRAL:
+                return None, None
             d = snapshot_diff(post_a, post_b, client=client, tol=tol)
             if d is not None:
                 return Violation(props, oracle, "twin-state", cell, f"sid {sid}: {d}"), sid
